@@ -874,3 +874,156 @@ Proof.
     + unfold amem in *. rewrite Hu36, H1, Huc. reflexivity.
     + rewrite (avail_users td _ v Hu36), H2, Hac. rewrite (avail_users t2 tc v Huc). reflexivity.
 Qed.
+
+(* ------------------------------------------------------------------------------------------ *)
+(* 3. block connection: the watcher's breach loops, relative to the state t1 they start from *)
+
+(* a tracker created in this block: for a row that had none, breached by a transaction of the block *)
+Definition NewTrk (t1 : tower) (txs : list N) (k : trk) : Prop :=
+  find_trk (db_trks t1) (trk_uuid k) = None /\
+  exists a, In a (db_apps t1) /\ app_uuid a = trk_uuid k /\ memN (a_loc a) txs = true /\
+            decrypt (a_blob a) (a_loc a) = Some (t_penalty k) /\
+            (t_conf k = true -> memo_ok (car_memo t1) -> ti_get (r_index t1) (t_penalty k) <> None).
+
+Record BL (t1 : tower) (txs : list N) (t : tower) : Prop := {
+  bl_ua : ua t = ua t1;
+  bl_idx : r_index t = r_index t1;
+  bl_reorg : reorged t = reorged t1;
+  bl_memo : memo_ok (car_memo t1) -> memo_ok (car_memo t);
+  bl_trks : exists news, db_trks t = db_trks t1 ++ news /\ forall k, In k news -> NewTrk t1 txs k }.
+
+Lemma find_trk_notin l u : ~ In u (map trk_uuid l) -> find_trk l u = None.
+Proof.
+  intros Hn. destruct (find_trk l u) as [k|] eqn:E; [|reflexivity].
+  apply find_trk_Some in E. destruct E as [Hi He]. exfalso. apply Hn. rewrite <- He. apply in_map. exact Hi.
+Qed.
+
+Lemma find_trk_app_None l1 l2 u : find_trk (l1 ++ l2) u = None -> find_trk l1 u = None.
+Proof.
+  intros H. apply find_trk_notin. intros Hi. apply (find_trk_None _ _ H). rewrite map_app. apply in_or_app. left. exact Hi.
+Qed.
+
+Lemma BL_refl t1 txs : BL t1 txs t1.
+Proof. constructor; try reflexivity; [tauto|]. exists []. split; [symmetry; apply app_nil_r|intros ? []]. Qed.
+
+Lemma BL_core t1 txs t t' :
+  BL t1 txs t -> core t' = core t -> (memo_ok (car_memo t) -> memo_ok (car_memo t')) -> BL t1 txs t'.
+Proof.
+  intros [B1 B2 B3 B4 B5] Hc Hm. pose proof (core_ua _ _ Hc) as Hu. unfold core in Hc. inversion Hc as [[E1 E2 E3 E4 E5 E6 E7 E8 E9 E10]].
+  constructor; try congruence; [tauto|]. rewrite E6. exact B5.
+Qed.
+
+Lemma handle_breach_BL sc t1 txs t uuid d p s t' a :
+  BL t1 txs t -> find_app (db_apps t) uuid = Some a -> a_loc a = d -> memN d txs = true ->
+  decrypt (a_blob a) d = Some p ->
+  r_handle_breach sc t uuid d p = Ok s t' -> BL t1 txs t'.
+Proof.
+  intros HB Hf Hl Hd Hdec H. apply handle_breach_spec in H. destruct H as [tm [Hc [_ [Ht Hm]]]].
+  assert (HBm : BL t1 txs tm) by (apply (BL_core t1 txs t tm HB Hc); tauto).
+  subst t'. destruct (status_accepted s) eqn:Eacc; [|exact HBm].
+  unfold r_add_tracker.
+  assert (Htrk : db_trks tm = db_trks t) by (unfold core in Hc; inversion Hc; reflexivity).
+  assert (Happ : db_apps tm = db_apps t) by (unfold core in Hc; inversion Hc; reflexivity).
+  destruct s as [h0|h0| |c]; try exact HBm;
+    (destruct (find_trk (db_trks tm) uuid) eqn:Ek; [exact HBm|]; rewrite Happ, Hf).
+  - (* ConfirmedIn *)
+    destruct HBm as [B1 B2 B3 B4 [news [B5 B6]]]. constructor; try assumption.
+    exists (news ++ [mk_trk (fst uuid) (snd uuid) d p h0 true]). split.
+    + cbn [db_trks p_insert_trk set_db_trks]. rewrite B5, app_assoc. reflexivity.
+    + intros k Hk. apply in_app_or in Hk. destruct Hk as [Hk|[Hk|[]]]; [apply B6; exact Hk|]. subst k.
+      assert (Hu : trk_uuid (mk_trk (fst uuid) (snd uuid) d p h0 true) = uuid) by (destruct uuid; reflexivity).
+      unfold NewTrk. rewrite Hu. cbn [t_penalty t_conf]. split.
+      * rewrite B5 in Ek. apply find_trk_app_None in Ek. exact Ek.
+      * apply find_app_Some in Hf. destruct Hf as [Hi He]. exists a.
+        destruct (ua_fields _ _ (bl_ua _ _ _ HB)) as [_ [_ Hat]]. rewrite <- Hat.
+        split; [exact Hi|]. split; [exact He|]. split; [rewrite Hl; exact Hd|]. split; [rewrite Hl; exact Hdec|].
+        intros _ Hmo. rewrite <- (bl_idx _ _ _ HB). apply (bl_memo _ _ _ HB) in Hmo. apply Hm in Hmo. destruct Hmo as [_ Hmo].
+        apply (Hmo h0). reflexivity.
+  - (* InMempoolSince *)
+    destruct HBm as [B1 B2 B3 B4 [news [B5 B6]]]. constructor; try assumption.
+    exists (news ++ [mk_trk (fst uuid) (snd uuid) d p h0 false]). split.
+    + cbn [db_trks p_insert_trk set_db_trks]. rewrite B5, app_assoc. reflexivity.
+    + intros k Hk. apply in_app_or in Hk. destruct Hk as [Hk|[Hk|[]]]; [apply B6; exact Hk|]. subst k.
+      assert (Hu : trk_uuid (mk_trk (fst uuid) (snd uuid) d p h0 false) = uuid) by (destruct uuid; reflexivity).
+      unfold NewTrk. rewrite Hu. cbn [t_penalty t_conf]. split.
+      * rewrite B5 in Ek. apply find_trk_app_None in Ek. exact Ek.
+      * apply find_app_Some in Hf. destruct Hf as [Hi He]. exists a.
+        destruct (ua_fields _ _ (bl_ua _ _ _ HB)) as [_ [_ Hat]]. rewrite <- Hat.
+        split; [exact Hi|]. split; [exact He|]. split; [rewrite Hl; exact Hd|]. split; [rewrite Hl; exact Hdec|].
+        intros Hx. discriminate.
+Qed.
+
+Lemma breach_uuid_loop_BL sc t1 txs d : memN d txs = true -> forall us t inv inv' t',
+  BL t1 txs t -> (forall u, In u us -> fst u = d) -> (forall u, In u inv -> memN (fst u) txs = true) ->
+  breach_uuid_loop sc d us t inv = Ok inv' t' ->
+  BL t1 txs t' /\ (forall u, In u inv' -> memN (fst u) txs = true).
+Proof.
+  intros Hd. induction us as [|uuid us IH]; intros t inv inv' t' HB Hus Hinv; cbn [breach_uuid_loop].
+  - intros H; inversion H; subst. split; assumption.
+  - destruct (find_app (db_apps t) uuid) as [a|] eqn:Ef; [|discriminate].
+    assert (Hl : a_loc a = d).
+    { apply find_app_Some in Ef. destruct Ef as [_ He]. rewrite <- (Hus uuid (or_introl eq_refl)), <- He. reflexivity. }
+    assert (Hus' : forall u, In u us -> fst u = d) by (intros u Hu; apply Hus; right; exact Hu).
+    assert (Hinv' : forall u, In u (inv ++ [uuid]) -> memN (fst u) txs = true).
+    { intros u Hu. apply in_app_or in Hu. destruct Hu as [Hu|[Hu|[]]]; [apply Hinv; exact Hu|].
+      subst u. rewrite (Hus uuid (or_introl eq_refl)). exact Hd. }
+    destruct (decrypt (a_blob a) d) as [p|] eqn:Edec.
+    + destruct (r_handle_breach sc t uuid d p) as [s tm|] eqn:Eh; cbn [bind]; [|discriminate].
+      pose proof (handle_breach_BL sc t1 txs t uuid d p s tm a HB Ef Hl Hd Edec Eh) as HBm.
+      destruct (status_rejected s); apply IH; assumption.
+    + apply IH; assumption.
+Qed.
+
+Lemma breach_loop_BL sc t1 txs : forall ds t inv inv' t',
+  (forall d, In d ds -> memN d txs = true) ->
+  BL t1 txs t -> (forall u, In u inv -> memN (fst u) txs = true) ->
+  breach_loop sc ds t inv = Ok inv' t' ->
+  BL t1 txs t' /\ (forall u, In u inv' -> memN (fst u) txs = true).
+Proof.
+  induction ds as [|d ds IH]; intros t inv inv' t' Hds HB Hinv; cbn [breach_loop].
+  - intros H; inversion H; subst. split; assumption.
+  - destruct (breach_uuid_loop sc d _ t inv) as [inv1 tm|] eqn:Eb; cbn [bind]; [|discriminate].
+    apply (breach_uuid_loop_BL sc t1 txs d (Hds d (or_introl eq_refl))) in Eb; try assumption.
+    + destruct Eb as [HBm Hinv1]. apply IH; try assumption. intros d' Hd'. apply Hds. right. exact Hd'.
+    + intros u Hu. apply in_map_iff in Hu. destruct Hu as [a [He Ha]]. apply filter_In in Ha. destruct Ha as [_ Ha].
+      apply N.eqb_eq in Ha. rewrite <- He. exact Ha.
+Qed.
+
+Lemma w_block_spec sc t1 hash txs h t2 :
+  w_block_connected sc t1 (cache_block hash txs) h = Ok tt t2 ->
+  exists tb invalid, BL t1 txs tb /\ (forall u, In u invalid -> memN (fst u) txs = true) /\
+    db_apps t2 = del invalid (db_apps tb) /\
+    db_trks t2 = filter (fun k => negb (mem_uuid (trk_uuid k) invalid)) (db_trks tb) /\
+    db_users t2 = db_users tb /\ reorged t2 = reorged tb /\ r_index t2 = r_index tb.
+Proof.
+  unfold w_block_connected. destruct (ti_update (w_cache t1) (cache_block hash txs)) as [c|]; [|discriminate].
+  rewrite keys_cache_block.
+  destruct (breach_loop sc _ (set_w_cache t1 c) []) as [invalid tb|] eqn:Eb; cbn [bind]; [|discriminate].
+  assert (Hds : forall d, In d (filter (fun d => existsb (fun a => N.eqb (a_loc a) d) (db_apps (set_w_cache t1 c))) txs) -> memN d txs = true).
+  { intros d Hd. apply filter_In in Hd. destruct Hd as [Hd _]. apply memN_In. exact Hd. }
+  assert (HB0 : BL t1 txs (set_w_cache t1 c)).
+  { constructor; try reflexivity; [tauto|]. exists []. split; [symmetry; apply app_nil_r|intros ? []]. }
+  assert (Hinv0 : forall u : N * N, In u [] -> memN (fst u) txs = true) by (intros u []).
+  destruct (breach_loop_BL sc t1 txs _ _ _ _ _ Hds HB0 Hinv0 Eb) as [HB Hinv].
+  intros Hrun. exists tb, invalid. split; [exact HB|]. split; [exact Hinv|].
+  destruct invalid as [|i0 is].
+  - cbn [bind] in Hrun. inversion Hrun; subst; clear Hrun. cbn [db_apps db_trks db_users reorged r_index set_w_height].
+    split; [symmetry; apply del_nil|]. split; [symmetry; apply filter_true; intros; reflexivity|]. repeat split.
+  - unfold gk_delete_appointments in Hrun. cbn [bind] in Hrun. inversion Hrun; subst; clear Hrun. repeat split.
+Qed.
+
+(* the gatekeeper's listener: outdated users go, with their rows (cascade) *)
+Lemma gk_block_spec t0 h t1 :
+  gk_block_connected t0 h = Ok tt t1 ->
+  exists outd,
+    db_users t1 = filter (fun r => negb (memN (fst r) outd)) (db_users t0) /\
+    db_apps t1 = filter (fun a => negb (memN (a_user a) outd)) (db_apps t0) /\
+    db_trks t1 = filter (fun k => negb (memN (t_user k) outd)) (db_trks t0) /\
+    r_index t1 = r_index t0 /\ reorged t1 = reorged t0 /\ car_memo t1 = car_memo t0.
+Proof.
+  unfold gk_block_connected. destruct (outdated_users (c_delta (cfg t0)) h (gk_users t0)) as [outd|]; [|discriminate].
+  intros H; inversion H; subst; clear H. exists outd. destruct outd as [|o0 os].
+  - cbn [db_users db_apps db_trks r_index reorged car_memo set_gk_height].
+    repeat split; symmetry; apply filter_true; intros; reflexivity.
+  - repeat split.
+Qed.
